@@ -1,6 +1,6 @@
 (* Proof/TrajESP.v — the assembled even-sampling pass (Model/Traj.step_es). *)
 From Coq Require Import Reals ZArith List Lra Lia Bool.
-From MV Require Import Ops RInst Vec Cplx Mat Hop Hopper Propagate Cumulative SpawnStack SpawnStackP Traj HopP.
+From MV Require Import Ops RInst Vec Cplx Mat Hop Hopper Propagate Cumulative SpawnStack SpawnStackP Traj HopP SumR.
 Import ListNotations.
 Open Scope R_scope.
 
@@ -146,4 +146,43 @@ Proof.
     + unfold vget, g. apply es_gkndt_self_zero.
     + exact HG.
     + exact Hns.
+Qed.
+
+(* ---- any number of passes of one trajectory ---- *)
+Lemma step_es_index_le n m dt e0 e1 lam Cm (s s' : estate (T:=R)) kids G :
+  step_es ROps n m dt e0 e1 lam Cm s = (s', kids, G) -> (eiz s <= length (est s))%nat -> (eiz s' <= length (est s'))%nat /\ est s' = est s.
+Proof.
+  unfold step_es. destruct (oltb ROps (zeta_at ROps (est s) (eiz s)) _).
+  - destruct (nth_error (est s) (eiz s)) as [nd|]; intros H Hi; injection H as <- <- <-; cbn [eiz est]; split; try reflexivity; try exact Hi.
+    unfold next_index. apply advance_le. exact Hi.
+  - intros H Hi; injection H as <- <- <-; cbn [eiz est]; split; [exact Hi | reflexivity].
+Qed.
+
+(* the per-pass total rates of a run, read off the model (what step_es returns as its third component) *)
+Fixpoint es_rates_ok (n : nat) (m : list R) (dt : R) (ds : list (sdata (T:=R))) (s : estate (T:=R)) : Prop :=
+  match ds with
+  | [] => True
+  | d :: ds' =>
+      let '(s1, _, G) := step_es ROps n m dt (de0 d) (de1 d) (dlam d) (dC d) s in
+      (eiz s1 <> eiz s -> G <> 0) /\ es_rates_ok n m dt ds' s1
+  end.
+
+(* weight conservation over ANY number of passes: everything the trajectory has handed to children so far plus what it
+   still holds is what it started with *)
+Theorem run_es_weight_conserved n m dt (ds : list (sdata (T:=R))) d : forall (s sf : estate (T:=R)) kids,
+  run_es ROps n m dt ds s = (sf, kids) ->
+  wf_stack (S d) (est s) -> (eiz s <= length (est s))%nat -> es_rates_ok n m dt ds s ->
+  vsum ROps (map (fun k => ebase k) kids) + es_weight ROps sf = es_weight ROps s.
+Proof.
+  induction ds as [|x ds IH]; intros s sf kids H Hwf Hiz Hok.
+  - cbn in H. injection H as <- <-. cbn. lra.
+  - cbn [run_es] in H. cbn [es_rates_ok] in Hok.
+    destruct (step_es ROps n m dt (de0 x) (de1 x) (dlam x) (dC x) s) as [[s1 k1] G] eqn:Es.
+    destruct (run_es ROps n m dt ds s1) as [sf' k2] eqn:Er. injection H as <- <-.
+    destruct Hok as [HG Hok'].
+    destruct (step_es_index_le _ _ _ _ _ _ _ _ _ _ _ Es Hiz) as [Hi1 Est1].
+    pose proof (step_es_weight_conserved n m dt _ _ _ _ s s1 k1 G d Es Hwf Hiz HG) as P1.
+    assert (wf_stack (S d) (est s1)) as Hwf1 by (rewrite Est1; exact Hwf).
+    pose proof (IH s1 sf' k2 Er Hwf1 Hi1 Hok') as P2.
+    rewrite map_app, vsum_app. cbn [oadd ROps] in *. lra.
 Qed.
